@@ -459,55 +459,37 @@ def CliOut.mapRest (f : Bytes → Bytes) : CliOut → CliOut
   | .opened p e rest => .opened p e (f rest)
   | o => o
 
+/-- the extension strings of the reply under the modelled accept policies -/
+def replyExts (cfg : SrvCfg) (v : Validated) : List Bytes :=
+  match cfg.accept with
+  | .denyAll => []
+  | .firstDeflate =>
+    (match (v.exts.filter (fun e => isPmce e.name)).find? (·.name = b!"permessage-deflate") with
+     | some o => [deflateAcceptString o]
+     | none => [])
+
 /-- `succeedHandshake` either refuses (independently of the pipelined rest) or opens, carrying the rest along -/
 theorem succeed_cases (cfg : SrvCfg) (v : Validated) (proto : Option Bytes) (uh : List (Bytes × Bytes)) :
     (∃ o, o.isOpened = false ∧ o.isIncomplete = false ∧ o.isEscape = false ∧ ∀ r, succeed cfg v proto uh r = o) ∨
-    (∃ resp e, ∀ r, succeed cfg v proto uh r = .opened resp proto e r) := by
+    (∀ r, succeed cfg v proto uh r =
+      .opened (utf8Encode (renderResponse cfg uh proto v.key (replyExts cfg v))) proto (replyExts cfg v) r) := by
   unfold succeed
   dsimp only
   have tail : ∀ (c1 : Bool),
       (∃ o : SrvOut, o.isOpened = false ∧ o.isIncomplete = false ∧ o.isEscape = false ∧ ∀ r : Bytes,
         (if c1 = true then (if cfg.aio = true then SrvOut.fail 500 [] else SrvOut.stuck)
          else if (!(List.filter (fun e => isPmce e.name) v.exts).all (pmceParamsOk true)) = true then SrvOut.fail 400 []
-         else SrvOut.opened
-           (utf8Encode (renderResponse cfg uh proto v.key
-             (match cfg.accept with
-              | .denyAll => []
-              | .firstDeflate =>
-                (match (List.filter (fun e => isPmce e.name) v.exts).find? (·.name = b!"permessage-deflate") with
-                 | some o => [deflateAcceptString o]
-                 | none => []))))
-           proto
-           (match cfg.accept with
-            | .denyAll => []
-            | .firstDeflate =>
-              (match (List.filter (fun e => isPmce e.name) v.exts).find? (·.name = b!"permessage-deflate") with
-               | some o => [deflateAcceptString o]
-               | none => []))
-           r) = o) ∨
-      (∃ resp e, ∀ r : Bytes,
+         else SrvOut.opened (utf8Encode (renderResponse cfg uh proto v.key (replyExts cfg v))) proto (replyExts cfg v) r)
+          = o) ∨
+      (∀ r : Bytes,
         (if c1 = true then (if cfg.aio = true then SrvOut.fail 500 [] else SrvOut.stuck)
          else if (!(List.filter (fun e => isPmce e.name) v.exts).all (pmceParamsOk true)) = true then SrvOut.fail 400 []
-         else SrvOut.opened
-           (utf8Encode (renderResponse cfg uh proto v.key
-             (match cfg.accept with
-              | .denyAll => []
-              | .firstDeflate =>
-                (match (List.filter (fun e => isPmce e.name) v.exts).find? (·.name = b!"permessage-deflate") with
-                 | some o => [deflateAcceptString o]
-                 | none => []))))
-           proto
-           (match cfg.accept with
-            | .denyAll => []
-            | .firstDeflate =>
-              (match (List.filter (fun e => isPmce e.name) v.exts).find? (·.name = b!"permessage-deflate") with
-               | some o => [deflateAcceptString o]
-               | none => []))
-           r) = .opened resp proto e r) := by
+         else SrvOut.opened (utf8Encode (renderResponse cfg uh proto v.key (replyExts cfg v))) proto (replyExts cfg v) r)
+          = .opened (utf8Encode (renderResponse cfg uh proto v.key (replyExts cfg v))) proto (replyExts cfg v) r) := by
     intro c1
     cases c1
     · cases h2 : (!(List.filter (fun e => isPmce e.name) v.exts).all (pmceParamsOk true))
-      · right; exact ⟨_, _, fun _ => rfl⟩
+      · right; exact fun _ => rfl
       · left; exact ⟨.fail 400 [], rfl, rfl, rfl, fun _ => rfl⟩
     · left
       cases cfg.aio
@@ -522,7 +504,7 @@ theorem SrvOut.mapRest_of_not_opened {o : SrvOut} (h : o.isOpened = false) (f : 
 
 theorem succeed_append (cfg : SrvCfg) (v : Validated) (proto : Option Bytes) (uh : List (Bytes × Bytes))
     (r t : Bytes) : succeed cfg v proto uh (r ++ t) = (succeed cfg v proto uh r).mapRest (· ++ t) := by
-  rcases succeed_cases cfg v proto uh with ⟨o, h1, _, _, h⟩ | ⟨resp, e, h⟩
+  rcases succeed_cases cfg v proto uh with ⟨o, h1, _, _, h⟩ | h
   · rw [h, h]; cases o <;> first | rfl | simp [SrvOut.isOpened] at h1
   · rw [h, h]; rfl
 
@@ -574,7 +556,7 @@ theorem validate_error_not_incomplete {cfg : SrvCfg} {env : SrvEnv} {line : Byte
 
 theorem succeed_not_incomplete (cfg : SrvCfg) (v : Validated) (proto : Option Bytes) (uh : List (Bytes × Bytes))
     (r : Bytes) : (succeed cfg v proto uh r).isIncomplete = false := by
-  rcases succeed_cases cfg v proto uh with ⟨o, _, h2, _, h⟩ | ⟨resp, e, h⟩
+  rcases succeed_cases cfg v proto uh with ⟨o, _, h2, _, h⟩ | h
   · rw [h]; exact h2
   · rw [h]; rfl
 
@@ -722,7 +704,7 @@ theorem server_never_escapes_partial (cfg : SrvCfg) (env : SrvEnv)
         · rfl
         · rfl
         · next proto uh _ =>
-          rcases succeed_cases cfg _ proto uh with ⟨o, _, _, h3, h⟩ | ⟨resp, e, h⟩
+          rcases succeed_cases cfg _ proto uh with ⟨o, _, _, h3, h⟩ | h
           · rw [h]; exact h3
           · rw [h]; rfl
 
@@ -805,5 +787,211 @@ example : HeadUtf8 b!"HTTP/1.1 101 X\r\n\r\n" := by
     have : find crlfcrlf b!"HTTP/1.1 101 X\r\n\r\n" = some 14 := by decide
     rw [this] at h; cases h; rfl
   subst this; decide
+
+/-! ### the 101 reply -/
+
+/-- how an `opened` verdict comes about -/
+theorem server_opened_eq {cfg : SrvCfg} {env : SrvEnv} {data resp rest : Bytes} {proto : Option Bytes} {exts : List Bytes}
+    (h : server cfg env data = .opened resp proto exts rest) :
+    ∃ eoh line hs v uh p', find crlfcrlf data = some eoh ∧ parseHttpHeader (data.take (eoh + 4)) = some (line, hs) ∧
+      validate cfg env line hs = .ok v ∧ env.onConnect = .accept p' uh ∧
+      succeed cfg v p' uh (data.drop (eoh + 4)) = .opened resp proto exts rest := by
+  unfold server at h
+  split at h
+  · split at h <;> cases h
+  · next eoh hf =>
+    split at h
+    · cases h
+    · next line hs hp =>
+      split at h
+      · next o ho =>
+        have := validate_error_not_opened ho
+        rw [h] at this; cases this
+      · next v hv =>
+        split at h
+        · cases h
+        · cases h
+        · next p' uh hoc => exact ⟨eoh, line, hs, v, uh, p', hf, hp, hv, hoc, h⟩
+
+/-- the extension strings a reply can carry: the accept string of a permessage-deflate offer of the client -/
+def ReplyExtOk (offers : List Ext) (e : Bytes) : Prop :=
+  ∃ o ∈ offers, isPmce o.name = true ∧ o.name = b!"permessage-deflate" ∧ e = deflateAcceptString o
+
+theorem replyExts_ok (cfg : SrvCfg) (v : Validated) : ∀ e ∈ replyExts cfg v, ReplyExtOk v.exts e := by
+  intro e he
+  unfold replyExts at he
+  split at he
+  · simp at he
+  · split at he
+    · next o ho =>
+      simp at he
+      subst he
+      have hm := List.mem_of_find?_eq_some ho
+      have hn := List.find?_some ho
+      simp at hm hn
+      exact ⟨o, hm.1, hm.2, hn, rfl⟩
+    · simp at he
+
+theorem succeed_opened_eq {cfg : SrvCfg} {v : Validated} {p' proto : Option Bytes} {uh : List (Bytes × Bytes)}
+    {r resp rest : Bytes} {exts : List Bytes} (h : succeed cfg v p' uh r = .opened resp proto exts rest) :
+    proto = p' ∧ rest = r ∧ (∀ p, proto = some p → p ∈ v.protocols) ∧
+    resp = utf8Encode (renderResponse cfg uh proto v.key exts) ∧ ∀ e ∈ exts, ReplyExtOk v.exts e := by
+  have hop : (succeed cfg v p' uh r).isOpened = true := by rw [h]; rfl
+  have hpr := ((succeed_opened_iff cfg v p' uh r).1 hop).1
+  rcases succeed_cases cfg v p' uh with ⟨o, h1, _, _, ho⟩ | ho
+  · rw [ho] at hop; rw [h1] at hop; cases hop
+  · rw [ho] at h
+    cases h
+    exact ⟨rfl, rfl, hpr, rfl, replyExts_ok cfg v⟩
+
+/-- **server_reply_correct**: whenever the server model opens, for all inputs — the reply is the rendered 101 response for
+the key the client sent (`Sec-WebSocket-Accept` = `acceptDigest key`), the subprotocol is none or one the client announced,
+and every extension in the reply answers a permessage-deflate offer present in the request. -/
+theorem server_reply_correct {cfg : SrvCfg} {env : SrvEnv} {data resp rest : Bytes} {proto : Option Bytes}
+    {exts : List Bytes} (h : server cfg env data = .opened resp proto exts rest) :
+    ∃ line hs uh, ParsedHead data line hs ∧ env.onConnect = .accept proto uh ∧
+      resp = utf8Encode (renderResponse cfg uh proto (strip (value hs b!"sec-websocket-key")) exts) ∧
+      (∀ p, proto = some p → p ∈ offered hs) ∧
+      (∀ e ∈ exts, ReplyExtOk (parseExtensions (value hs b!"sec-websocket-extensions")) e) := by
+  obtain ⟨eoh, line, hs, v, uh, p', hf, hp, hv, hoc, hs'⟩ := server_opened_eq h
+  obtain ⟨rfl, _, hpr, hresp, hext⟩ := succeed_opened_eq hs'
+  have wf := parse_wf hp
+  obtain ⟨uri, h1, h2, h3, h4, h5, ver, h6, ps, h7, h8, key, h9, ex, h10, h11, rfl⟩ := (validate_ok _ _ _ _ _).1 hv
+  have hps := (stageProtocols_ok hs ps).1 h7
+  have hk := (stageKey_ok wf key).1 h9
+  have hx := (stageExtensions_ok ex).1 h10
+  refine ⟨line, hs, uh, ⟨eoh, hf, hp⟩, hoc, ?_, ?_, ?_⟩
+  · rw [hresp]; simp only; rw [hk.2]
+  · intro p hp2
+    have := hpr p hp2
+    simp only at this
+    rw [hps.2] at this
+    exact this
+  · intro e he
+    have := hext e he
+    simp only at this
+    rw [hx.2] at this
+    exact this
+
+/-- the rendered response is a 101 … -/
+theorem renderResponse_status (cfg : SrvCfg) (uh : List (Bytes × Bytes)) (proto : Option Bytes) (key : Bytes)
+    (exts : List Bytes) :
+    ∃ t, renderResponse cfg uh proto key exts = b!"HTTP/1.1 101 Switching Protocols" ++ crlf ++ t := by
+  unfold renderResponse
+  simp only [List.append_assoc]
+  exact ⟨_, rfl⟩
+
+/-- … that carries `Sec-WebSocket-Accept: base64(sha1(key ++ GUID))` -/
+theorem renderResponse_accept (cfg : SrvCfg) (uh : List (Bytes × Bytes)) (proto : Option Bytes) (key : Bytes)
+    (exts : List Bytes) :
+    ∃ a b, renderResponse cfg uh proto key exts =
+      a ++ (b!"Sec-WebSocket-Accept: " ++ Crypto7.Base64.encode (Crypto7.Sha1.hash (key ++ guid)) ++ crlf) ++ b := by
+  unfold renderResponse acceptDigest
+  refine ⟨b!"HTTP/1.1 101 Switching Protocols" ++ crlf
+    ++ (if cfg.serverHeader.isEmpty then [] else b!"Server: " ++ cfg.serverHeader ++ crlf)
+    ++ b!"Upgrade: WebSocket" ++ crlf ++ b!"Connection: Upgrade" ++ crlf
+    ++ renderHeaders cfg.headers ++ renderHeaders uh
+    ++ (match proto with | some p => b!"Sec-WebSocket-Protocol: " ++ p ++ crlf | none => []),
+    (if exts.isEmpty then [] else b!"Sec-WebSocket-Extensions: " ++ join [44] exts ++ crlf) ++ crlf, ?_⟩
+  simp only [List.append_assoc]
+  rfl
+
+/-- the accept string of an offer names the extension of that offer -/
+theorem deflateAcceptString_prefix (o : Ext) : b!"permessage-deflate" <+: deflateAcceptString o := by
+  unfold deflateAcceptString
+  dsimp only
+  have h2 : b!"permessage-deflate" <+:
+      (if (paramVals o b!"server_no_context_takeover").isEmpty then b!"permessage-deflate"
+       else b!"permessage-deflate" ++ b!"; server_no_context_takeover") := by
+    split
+    · exact List.prefix_rfl
+    · exact List.prefix_append _ _
+  split
+  · split
+    · exact (h2.trans (List.prefix_append _ _)).trans (List.prefix_append _ _)
+    · exact h2
+  · exact h2
+
+/-! ### origin -/
+
+/-- **origin_whole_match**: a request that passes the origin stage has no origin header (of its version), or a
+`null`-like origin with `allowNullOrigin`, or an origin whose reconstruction `scheme://host:port` is matched IN FULL by one
+of the allowed patterns.  (The stage evaluates the regex of `wildcards2patterns`, `^…$` with `$` also matching before a
+final newline; `originHeader_noNl` shows that no reconstructed origin contains a newline, so this is `Glob.fullMatch`.) -/
+theorem origin_whole_match {cfg : SrvCfg} {env : SrvEnv} {hs : List Hdr} (wf : HdrsWf hs) {ver : Nat}
+    (h : stageOrigin cfg env hs ver = .ok ()) :
+    count hs (originKey ver) = 0 ∨
+    (urlToOrigin env.brOk (strip (value hs (originKey ver))) = some .null ∧ cfg.allowNullOrigin = true) ∨
+    ∃ s hst p pat, urlToOrigin env.brOk (strip (value hs (originKey ver))) = some (.triple s hst p) ∧
+      pat ∈ cfg.allowedOrigins ∧ Glob.fullMatch pat (originHeader s hst p) = true := by
+  rcases (stageOrigin_ok wf ver).1 h with h0 | ⟨_, ha⟩
+  · exact .inl h0
+  · right
+    unfold originAllowed at ha
+    split at ha
+    · cases ha
+    · next heq => exact .inl ⟨heq, ha⟩
+    · next s hst p heq =>
+      simp at ha
+      obtain ⟨pat, hm, hf⟩ := ha
+      exact .inr ⟨s, hst, p, pat, heq, hm, hf⟩
+
+/-- whole match is not prefix match: the classic bypass is refused, for the model as for the Spec -/
+example : Glob.fullMatch b!"*good.com:80" b!"http://good.com:80" = true ∧
+    Glob.fullMatch b!"*good.com:80" b!"http://good.com:80.evil.com:80" = false := by decide
+
+example : (server { allowedOrigins := [b!"http://good.com:80"] } {}
+    b!"GET / HTTP/1.1\r\nHost: a\r\nUpgrade: websocket\r\nConnection: Upgrade\r\nOrigin: http://good.com.evil.com\r\nSec-WebSocket-Key: dGhlIHNhbXBsZSBub25jZQ==\r\nSec-WebSocket-Version: 13\r\n\r\n")
+    = .fail 400 [] := by decide +kernel
+
+/-! ### deviations of the code from the Spec that the `_partial` hypotheses exclude (each is a known finding) -/
+
+/-- `Sec-WebSocket-Version: +13` — the model (like the code) opens, the Spec says invalid -/
+example : (server {} {} b!"GET / HTTP/1.1\r\nHost: a\r\nUpgrade: websocket\r\nConnection: Upgrade\r\nSec-WebSocket-Key: dGhlIHNhbXBsZSBub25jZQ==\r\nSec-WebSocket-Version: +13\r\n\r\n").isOpened = true
+    ∧ specRequest {} {} b!"GET / HTTP/1.1\r\nHost: a\r\nUpgrade: websocket\r\nConnection: Upgrade\r\nSec-WebSocket-Key: dGhlIHNhbXBsZSBub25jZQ==\r\nSec-WebSocket-Version: +13\r\n\r\n" = false := by
+  decide
+
+/-- … and a plain `13` satisfies both (the hypothesis `StrictVersion` holds on a non-trivial input) -/
+example : (server {} {} b!"GET / HTTP/1.1\r\nHost: a\r\nUpgrade: websocket\r\nConnection: Upgrade\r\nSec-WebSocket-Key: dGhlIHNhbXBsZSBub25jZQ==\r\nSec-WebSocket-Version: 13\r\n\r\n").isOpened = true
+    ∧ specRequest {} {} b!"GET / HTTP/1.1\r\nHost: a\r\nUpgrade: websocket\r\nConnection: Upgrade\r\nSec-WebSocket-Key: dGhlIHNhbXBsZSBub25jZQ==\r\nSec-WebSocket-Version: 13\r\n\r\n" = true := by
+  decide
+
+/-- status `+101` — the client model opens, the Spec says invalid -/
+example : (client {} b!"dGhlIHNhbXBsZSBub25jZQ==" b!"HTTP/1.1 +101 X\r\nUpgrade: websocket\r\nConnection: Upgrade\r\nSec-WebSocket-Accept: s3pPLMBiTxaQ9kYGzzhZRbK+xOo=\r\n\r\n").isOpened = true
+    ∧ specResponse {} b!"dGhlIHNhbXBsZSBub25jZQ==" b!"HTTP/1.1 +101 X\r\nUpgrade: websocket\r\nConnection: Upgrade\r\nSec-WebSocket-Accept: s3pPLMBiTxaQ9kYGzzhZRbK+xOo=\r\n\r\n" = false := by
+  decide +kernel
+
+/-- a client that announced `b` (via `onConnecting`) while `factory.protocols = [a]` accepts `a`, which it never requested -/
+example : (client { protocols := [b!"b"], factoryProtocols := [b!"a"] } b!"dGhlIHNhbXBsZSBub25jZQ=="
+      b!"HTTP/1.1 101 X\r\nUpgrade: websocket\r\nConnection: Upgrade\r\nSec-WebSocket-Accept: s3pPLMBiTxaQ9kYGzzhZRbK+xOo=\r\nSec-WebSocket-Protocol: a\r\n\r\n").isOpened = true
+    ∧ specResponse { protocols := [b!"b"], factoryProtocols := [b!"a"] } b!"dGhlIHNhbXBsZSBub25jZQ=="
+      b!"HTTP/1.1 101 X\r\nUpgrade: websocket\r\nConnection: Upgrade\r\nSec-WebSocket-Accept: s3pPLMBiTxaQ9kYGzzhZRbK+xOo=\r\nSec-WebSocket-Protocol: a\r\n\r\n" = false := by
+  decide +kernel
+
+/-- with the Flash policy file served, the verdict depends on segmentation (why `segmentation_independent_server` asks
+for `flashPolicy = false`) -/
+example : serverFeed { flashPolicy := true } {} [flashRequest, b!"\r\n\r\n"] = .flash
+    ∧ server { flashPolicy := true } {} (flashRequest ++ b!"\r\n\r\n") = .fail 400 [] := by decide
+
+/-! ### the client request -/
+
+/-- **request_targets_url**: for every configuration and key the request line is `GET <resource> HTTP/1.1`, followed
+(after the optional User-Agent) by `Host: <host>:<port>` — the `(host, port, resource)` the factory holds. -/
+theorem request_targets_url (cfg : CliCfg) (key : Bytes) :
+    ∃ ua rest, (ua = [] ∨ ua = b!"User-Agent: " ++ cfg.useragent ++ crlf) ∧
+      clientRequest cfg key = utf8Encode (b!"GET " ++ cfg.resource ++ b!" HTTP/1.1" ++ crlf ++ ua ++
+        b!"Host: " ++ cfg.host ++ b!":" ++ natDigits cfg.port ++ crlf ++ rest) := by
+  unfold clientRequest
+  by_cases hu : cfg.useragent.isEmpty = true
+  · exact ⟨[], _, .inl rfl, by rw [if_pos hu]; simp only [List.append_assoc, List.append_nil, List.nil_append]; rfl⟩
+  · exact ⟨_, _, .inr rfl, by rw [if_neg hu]; simp only [List.append_assoc]; rfl⟩
+
+/-- what `parse_url` hands to the factory (model `parseUrl`) -/
+example : parseUrl (fun _ => true) b!"wss://example.com:8443/p/q?x=1" = some ⟨true, b!"example.com", 8443, b!"/p/q?x=1"⟩ := by
+  decide
+/-- **request_targets_url is partial w.r.t. the URL**: path parameters of the last segment are dropped (known finding) -/
+example : parseUrl (fun _ => true) b!"ws://h/a;x=1?q=2" = some ⟨false, b!"h", 80, b!"/a?q=2"⟩ := by decide
+/-- … and an IPv6 host loses its brackets, so the request says `Host: ::1:9000` (known finding) -/
+example : parseUrl (fun _ => true) b!"ws://[::1]:9000/" = some ⟨false, b!"::1", 9000, b!"/"⟩ := by decide
 
 end Abverif.Handshake
